@@ -35,6 +35,8 @@ class Stat:
         self.mtime = Tick(node.mtime)
         self.created = node.ctime
         self.last_modified = node.mtime
+        if hasattr(node.mtime, 'v'):
+            self.mtime = Tick(node.mtime.v)
         self.owner_session_id = node.owner
         self.ephemeralOwner = node.owner or 0
         self.version = node.version
